@@ -1528,7 +1528,7 @@ def gauging(cx):
     _no_nested_pools()
     rng = cx.rng
     nts = [1, 2, 3, 4, 5, 6] if cx.quick else [1, 2, 3, 4, 5, 6, 7, 8]
-    reps = 8 if cx.quick else 60
+    reps = 8 if cx.quick else 100
     nsteps = 4 if cx.quick else 8
     grid = [(nt, loopy, dt, ei, r) for nt in nts for loopy in (False, True) for dt in DTYPES for ei in range(4)
             for r in range(reps)]
@@ -1563,7 +1563,7 @@ def simplification(cx):
     _no_nested_pools()
     rng = cx.rng
     nts = [1, 2, 3, 4, 5, 6] if cx.quick else [1, 2, 3, 4, 5, 6, 7]
-    reps = 10 if cx.quick else 80
+    reps = 10 if cx.quick else 160
     nsteps = 4 if cx.quick else 8
     grid = [(nt, hy, dt, ei, r) for nt in nts for hy in (False, True) for dt in DTYPES for ei in range(4)
             for r in range(reps)]
@@ -1596,7 +1596,7 @@ def external_gauges(cx):
     _no_nested_pools()
     rng = cx.rng
     nts = [2, 3, 4, 5] if cx.quick else [2, 3, 4, 5, 6]
-    reps = 5 if cx.quick else 40
+    reps = 5 if cx.quick else 60
     nsteps = 4 if cx.quick else 7
     grid = [(nt, loopy, dt, ei, r) for nt in nts for loopy in (False, True) for dt in DTYPES for ei in range(4)
             for r in range(reps)]
